@@ -37,6 +37,30 @@ CLAIMED = {
     'C15': _c("counting/guard analysis of Ksf::hash events on every Ok path of the client finish steps (incl. an Argon2 suite)",
               "Decides the structure of the property completely: exactly one KSF call per finish path, right receiver on each branch of the parameter, argument = OPRF output, result bound "
               "into every password-derived secret, failure propagated. 'Different parameters fail' additionally needs the KSF to be a function of its parameters.", "DESIGN.md section 5 C15"),
+    'C05': _c("term comparison of both preambles and both envelope MAC inputs with the RFC 9807 formulas; unique-decodability check of every hashed/MACed/HKDF string",
+              "Decides binding (context, effective identities in RFC roles, credential identifier) and injectivity of every authenticated byte string (each variable-length part is 2-byte "
+              "length-prefixed or the only variable part), for all inputs and every suite analysed. The arithmetic of the integer encoder is analysed by finite abstraction of its guard.", "DESIGN.md section 5 C05"),
+    'C07': _c("elimination of the history quantifier: purity lemma (who-may-call + statics + type trees) + freshness provenance + transcript coverage + MAC guards",
+              "Decides the three structural facts (no shared state, fresh per-session values drawn inside the start calls, both transcripts cover both parties' fresh values and all message fields) "
+              "from which the routing-quantified statement follows under collision resistance and MAC unforgeability. The routings themselves are not enumerated.", "DESIGN.md section 5 C07"),
+    'C10': _c("interval/length-set analysis with branch refinement on monomorphic decoders + symbolic encode(decode(input)) round trip + reviewed leaf-decoder table",
+              "Decides length strictness and layout of the 11 public decoders fully (per suite, all paths) and leaf canonicity relative to a reviewed table of dependency decoders. Found and "
+              "fixed three genuine defects (trailing bytes, two SEC1 alias encodings).", "DESIGN.md section 5 C10"),
+    'C11': _c("who-may-construct analysis of the key newtypes (generic MIR), type-layout scan, and must-pass-through filters in each KeGroup decoder (monomorphic MIR)",
+              "Decides that invalid encodings cannot become key values: construction discipline, presence of the required filters on every Ok path of each group decoder, serde parity. "
+              "Found and fixed one genuine defect (Curve25519 small-order points). The filters' arithmetic is the dependencies'.", "DESIGN.md section 5 C11"),
+    'C12': _c("panic-site and loop inventory over reachable monomorphic instances with path-wise discharge (constant conditions, length sets, exact-length copies), allow-list by symbol",
+              "Decides for the crate's own code that every potential panic and loop reachable from the API is discharged or individually justified, that no length is narrowed and no result "
+              "dropped. Dependencies are trusted not to panic on the arguments given.", "DESIGN.md section 5 C12"),
+    'C13': _c("symbolic decode(encode(x)) field identity on monomorphic MIR + structural check of derived serde impls on generic MIR + purity lemma",
+              "Decides that the native and serde encodings carry every field needed and that nothing outside (state, arguments, rng) influences the continuation. Value-level round trip of leaf "
+              "encoders is the dependencies'.", "DESIGN.md section 5 C13"),
+    'C16': _c("term comparison of the export-key formula at seal and open + secret-flow (taint under one-way nodes) analysis of every message and password-file field",
+              "Decides that the export key is Expand(randomized_pwd, nonce||\"ExportKey\") at both ends with the envelope's fresh nonce, and that no secret reaches a message or the password file "
+              "except under a one-way function. 'Does not appear verbatim', not computational hiding.", "DESIGN.md section 5 C16"),
+    'C18': _c("call-graph who-may-call + guard analysis of the server code instantiated with an external key type; term equality with the direct-key instantiation",
+              "Decides the structure completely: which SecretKey methods are invoked, that their errors reach the caller unchanged on every path, no unwrap, no response before the DH outcome, "
+              "and that external-key and direct-key runs compute the same terms.", "DESIGN.md section 5 C18"),
     'C17': _c("who-may-call analysis over the whole monomorphic call graph (deny-list of entropy/time/IO items, RNG receiver types) + provenance of each random quantity",
               "Decides for the production build where every random quantity comes from (a distinct draw on the caller's generator) and that no other entropy, time or global state is "
               "reachable. That independent tapes give different values is the tape's property.", "DESIGN.md section 5 C17"),
